@@ -1,3 +1,31 @@
-(* Engine entry points for C07: run_c07 sub-op case.  (stub until the property's model exists) *)
-From Pan Require Import Base.Common Base.Sx.
-Definition run_c07 (sub : Z) (x : sx) : sx := SL [SZ (-1)].
+(* Engine entry points for C07 (ASSD).
+   701: (ndim X Y)      -> ((asd_sq X Y) (asd_sq Y X))      X = reference voxels, Y = prediction voxels
+   702: (k ndim X Y)    -> (assd_lo assd_hi)                rational enclosure of the real ASSD
+   703: (shape X Y)     -> dense variant with an explicit array shape (out-of-box = background)
+   704: (ndim X)        -> border X
+   Ill-formed input (a voxel whose length differs from ndim, ndim < 1) -> (-2). *)
+From Pan Require Import Base.Common Base.Sx Model.Assd.
+
+Definition dec_voxs (s : sx) : list vox := map sZs (sL s).
+Definition wf_b (nd : Z) (A : list vox) : bool :=
+  (1 <=? nd) && forallb (fun v => Z.of_nat (length v) =? nd) A.
+Definition of2 (p : list Z * list Z) : sx := SL [ofZs (fst p); ofZs (snd p)].
+
+Definition run_c07 (sub : Z) (x : sx) : sx :=
+  if sub =? 1 then
+    let nd := sZ (sNth 0 x) in let X := dec_voxs (sNth 1 x) in let Y := dec_voxs (sNth 2 x) in
+    if wf_b nd X && wf_b nd Y then of2 (assd_sq X Y) else SL [SZ (-2)]
+  else if sub =? 2 then
+    let k := sZ (sNth 0 x) in
+    let nd := sZ (sNth 1 x) in let X := dec_voxs (sNth 2 x) in let Y := dec_voxs (sNth 3 x) in
+    if wf_b nd X && wf_b nd Y && (0 <=? k) then
+      let ls := assd_sq X Y in SL [ofQ (assd_lo k ls); ofQ (assd_hi k ls)]
+    else SL [SZ (-2)]
+  else if sub =? 3 then
+    let shape := sZs (sNth 0 x) in let X := dec_voxs (sNth 1 x) in let Y := dec_voxs (sNth 2 x) in
+    let nd := Z.of_nat (length shape) in
+    if wf_b nd X && wf_b nd Y then of2 (assd_sq_dense shape X Y) else SL [SZ (-2)]
+  else if sub =? 4 then
+    let nd := sZ (sNth 0 x) in let X := dec_voxs (sNth 1 x) in
+    if wf_b nd X then SL (map ofZs (border X)) else SL [SZ (-2)]
+  else SL [SZ (-1)].
